@@ -12,7 +12,7 @@ from . import common
 LEVEL = "exploration"
 RULE = ("seeded random Series/DataFrames (float, int, bool columns incl. zeros, negatives and nulls; default, permuted, "
         "duplicated, string and MultiIndex row indexes) grouped through obj.groupby_fast with keys given as column names, "
-        "arrays, Series, index levels (by position and by name) and mixtures, with and without [] column selection. Every "
+        "arrays, Series, index levels (by position and by name; for frames also level names listed in by= before or after column names) and mixtures, with and without [] column selection. Every "
         "facade method (sum, mean, min, max, count, size, std, var, first, last, median, cumsum, cummin, cummax, cumcount, "
         "rolling(w).sum/mean/min/max, head, tail, nth, agg, iteration, groups) is compared with GroupBy(keys) on the selected "
         "value columns, and - for the null-skipping operations pandas also offers - with obj.groupby(...) in pandas (cumulative "
